@@ -670,9 +670,6 @@ func (u *Universe) SDL(svc int) string {
 				}
 			}
 		}
-		if svc < 0 {
-			n.needType(t.Name)
-		}
 	}
 	hasEntity := false
 	for name := range n.types {
